@@ -13,10 +13,25 @@ def gen_batch(rng, g, tagbase, hot):
     cs, bs = g.cs, 1 << g.bs
     nclus = max(1, g.size // cs)
     k = rng.choice([2, 2, 3, 3, 4, 5, 6])
-    style = rng.choice(['disjoint', 'samecluster', 'overlap', 'mixed', 'mixed'])
+    style = rng.choice(['disjoint', 'samecluster', 'overlap', 'mixed', 'mixed', 'reuse'])
     ops = []
     tag = tagbase
     base = rng.choice(hot)
+    if style == 'reuse':
+        # a discard of a (probably allocated) hot cluster while writes to OTHER clusters allocate: the freed host cluster
+        # may be handed out again while the discard is still punching it
+        c = base % nclus
+        ops.append(('D', c * cs, cs))
+        for i in range(rng.choice([1, 1, 2, 3])):
+            c2 = (c + 3 + 2 * i + rng.randrange(0, 5)) % nclus
+            if c2 == c:
+                continue
+            tag += 1
+            ops.append(('W', c2 * cs + rng.choice([0, bs]) % cs, rng.choice([bs, cs]) if rng.choice([0, bs]) == 0 else bs, tag))
+        ops = [o if o[0] != 'W' or o[1] + o[2] <= g.size // bs * bs else ('W', 0, bs, o[3]) for o in ops]
+        if rng.random() < 0.4:
+            ops.append(('R', c * cs, cs))
+        return ops, tag
     for i in range(k):
         kind = rng.choice(['W', 'W', 'W', 'R', 'R', 'D', 'F', 'K']) if style == 'mixed' else rng.choice(['W', 'W', 'R', 'D', 'F'])
         if style == 'disjoint':
@@ -50,18 +65,55 @@ def gen_batch(rng, g, tagbase, hot):
     return ops, tag
 
 
-def build_case(cid, g, rng, nbatches, images=None):
+def build_case(cid, g, rng, nbatches, images=None, faults_p=0.0):
     lines = []
     batches = []
     tag = 0
     nclus = max(1, g.size // g.cs)
     hot = [rng.randrange(0, nclus) for _ in range(3)]
+    prelude = []
     for b in range(nbatches):
+        if b == 0 and rng.random() < 0.5:
+            # prelude: the hot clusters are allocated and flushed before the concurrent part
+            for hc in hot:
+                tag += 1
+                lines.append('W %d %d %d' % (hc * g.cs, g.cs, tag))
+                prelude.append(('W', hc * g.cs, g.cs, tag))
+            lines.append('F')
         ops, tag = gen_batch(rng, g, tag, hot)
+        evict_style = False
+        l2_slots = g.l2[1] >> g.l2[0]
+        per_slice = (1 << g.l2[0]) // 8
+        if faults_p and nclus > per_slice * l2_slots and rng.random() < 0.7:
+            # eviction write-back racing with a flush: dirty slices filling the cache (sequential writes, no flush),
+            # then concurrently an access to one more slice (evicts a dirty one) and flush_meta
+            evict_style = True
+            for sl in range(l2_slots):
+                tag += 1
+                c0 = sl * per_slice + rng.randrange(0, per_slice)
+                lines.append('W %d %d %d' % (c0 * g.cs, 512, tag))
+                prelude.append(('W', c0 * g.cs, 512, tag))
+            cx = l2_slots * per_slice + rng.randrange(0, min(per_slice, nclus - l2_slots * per_slice))
+            ops = [rng.choice([('R', cx * g.cs, 512), ('W', cx * g.cs, 512, tag + 1)]), rng.choice([('F',), ('K',)])]
+            tag += 1
+            if rng.random() < 0.5:
+                ops.append(('F',))
         seed = rng.randrange(1, 1 << 40)
         mode = rng.choice([0, 0, 1, 2, 3])
+        faulty = rng.random() < faults_p or evict_style
+        if faulty:
+            # one backend write (metadata area: low host offsets) fails during this batch
+            lo = rng.randrange(0, 24) * g.cs
+            if evict_style:
+                lines.append('fault W 0 %d %d' % (64 * g.cs, rng.randrange(0, 3)))
+            else:
+                lines.append('fault W %d %d %d' % (lo, lo + rng.randrange(1, 12) * g.cs, rng.randrange(0, 4)))
         lines.append('par %d %d %d %d' % (seed, mode, 200000, len(ops)))
-        lines += [hist.op_line(o) for o in ops]
+        # some operations start late (after a few scheduler steps): @<n> prefix
+        delays = [rng.choice([0, 0, 0, 3, 8, 15, 30]) if i > 0 else 0 for i in range(len(ops))]
+        lines += [('@%d ' % dl if dl else '') + hist.op_line(o) for o, dl in zip(ops, delays)]
+        if faulty:
+            lines.append('faults clear')
         lines.append('N')
         lines.append('X q%d' % b)
         # sweep
@@ -74,7 +126,8 @@ def build_case(cid, g, rng, nbatches, images=None):
             lines.append('R %d %d' % (off, ln))
             sw.append((off, ln))
             off += ln
-        batches.append({'ops': ops, 'seed': seed, 'mode': mode, 'sweep': sw})
+        batches.append({'ops': ops, 'seed': seed, 'mode': mode, 'sweep': sw, 'delays': delays, 'prelude': list(prelude), 'faulty': faulty})
+        prelude = []
     lines.append('F')
     lines.append('X end')
     lines.append('open ' + g.params())
@@ -118,6 +171,15 @@ def judge(g, batches, fsw, lines, init=None):
     pos = L.index(opens[0]) + 1
     cs = g.cs
     for bi, b in enumerate(batches):
+        # sequential prelude of the first batch: its results come before the `par` line
+        for op in b.get('prelude', []):
+            for blk in blocks_of(op, cs, g.size):
+                cur[blk] = 'w%x' % ((op[3] << 40) | (blk & 0xffffffffff))
+        while pos < len(L) and L[pos].startswith('res ') and b.get('prelude'):
+            if L[pos].split()[2] != 'ok':
+                finds.append(('spurious-err', 'prelude operation failed: ' + L[pos], bi, ''))
+                return finds
+            pos += 1
         if pos >= len(L):
             finds.append(('progress', 'batch %d: no result (hang?)' % bi, bi, ''))
             return finds
